@@ -64,6 +64,7 @@ func (s *sink) Finding(f string) { s.findings = append(s.findings, f) }
 
 // ---------- one run: a history on a store ----------
 type runSpec struct {
+	directed int // 0: random history; k > 0: the k-th directed history (directedScript)
 	seed  int64
 	det   bool // bulk schedule known (indexing paused while a batch is committed; adaptive bulk)
 	flags Flags
@@ -351,6 +352,22 @@ func maintErrOK(err error) bool {
 
 func h4History(h []Tx) string { return coqHistory(h) }
 
+// Directed histories for an injective (SQL-like secondary) index: set; delete; set with a different
+// mapped key; set again — and deletes that carry a value, a re-insert under the mapped key that was
+// live before the delete, repeated deletes.  When the previous version of a source key is itself a
+// logical delete the indexer adds no tombstone (its mapped key died when the delete was indexed) and
+// does not read its value (commit 10acf02).
+func directedScript() []Tx {
+	set := func(k, v string) Tx { return Tx{Es: []Entry{{Key: []byte(k), Val: []byte(v)}}} }
+	del := func(k, v string) Tx { return Tx{Es: []Entry{{Key: []byte(k), Val: []byte(v), Del: true}}} }
+	return []Tx{
+		set("Rk", "a"), del("Rk", ""), set("Rk", "b"), set("Rk", "c"),
+		set("Rj", "a"), del("Rj", "d"), set("Rj", "a"), del("Rj", ""), del("Rj", "x"), set("Rj", "b"),
+		{Es: []Entry{{Key: []byte("Rk"), Val: []byte("c2")}, {Key: []byte("Rj"), Val: []byte(""), Del: true}, {Key: []byte("Rm"), Val: []byte("a")}}},
+		set("Rj", "b"), del("Rm", "a"), set("Rm", "a"),
+	}
+}
+
 // a store operation that fails in the middle of a run (reopen, index re-initialisation, snapshot,
 // commit) is itself a finding: the run ends there
 func runHistory(r *sink, rs runSpec, bucketPrefix string) error {
@@ -392,7 +409,21 @@ func runHistory1(r *sink, rs runSpec, bucketPrefix string) error {
 			g.maxEs = g.sc.MaxTxEs / 2
 		}
 	}
+	var script []Tx
+	if rs.directed > 0 {
+		// variant 1: bulks of one transaction; 2: one bulk of 8 (indexers paused); 3: bulks of 3, free schedule
+		script = directedScript()
+		g.sc = probeCfg([]int{1, 8, 3}[(rs.directed-1)%3], true)
+		if !rs.det {
+			g.sc.Adaptive, g.sc.BulkTO = false, 10*time.Millisecond
+		}
+		g.idxs = sqlLike()
+		g.noExp, g.tooLong = true, false
+	}
 	g.makeKeys()
+	if script != nil {
+		g.keys = [][]byte{[]byte("Rk"), []byte("Rj"), []byte("Rm"), []byte("Rz")}
+	}
 	s, err := newSut(g.sc, g.idxs)
 	if err != nil {
 		return err
@@ -401,6 +432,9 @@ func runHistory1(r *sink, rs runSpec, bucketPrefix string) error {
 	now := uint64(time.Now().Unix())
 	ntx := 8 + rng.Intn(28)
 	nb := 1 + rng.Intn(4)
+	if script != nil {
+		ntx, nb = len(script), 1+(rs.directed-1)/3
+	}
 	var batches []int
 	var unexp unexpected
 	maint := []string{}
@@ -429,6 +463,9 @@ func runHistory1(r *sink, rs runSpec, bucketPrefix string) error {
 		}
 		for i := 0; i < size; i++ {
 			t := g.makeTx()
+			if script != nil {
+				t = script[len(s.h)]
+			}
 			if err := s.commit(&t); err == errNothingToCommit {
 				i--
 				continue
@@ -516,7 +553,7 @@ func runHistory1(r *sink, rs runSpec, bucketPrefix string) error {
 				}
 			}
 			// ---- cases
-			js := map[string]any{"hseed": rs.seed, "det": rs.det, "index": c.js(), "store": g.sc.js(), "batches": append([]int{}, batches...),
+			js := map[string]any{"hseed": rs.seed, "det": rs.det, "directed": rs.directed, "index": c.js(), "store": g.sc.js(), "batches": append([]int{}, batches...),
 				"txs": len(s.h), "queries": len(qos), "flags": fmt.Sprint(rs.flags), "history": historyDigest(s.h)}
 			nontriv := false
 			for _, vs := range ix.Vers {
@@ -825,6 +862,13 @@ func Gen(r *vk.Run, n int) error {
 	for i := range specs {
 		specs[i] = runSpec{seed: r.Rng.Int63n(1 << 50), det: i%3 != 2, flags: flags}
 	}
+	// the directed histories (delete / re-insert patterns of an injective index), always, first
+	var dir []runSpec
+	for k := 1; k <= 6; k++ {
+		dir = append(dir, runSpec{directed: k, seed: int64(1000 + k), det: (k-1)%3 != 2, flags: flags})
+	}
+	specs = append(dir, specs...)
+	n = len(specs)
 	sinks := make([]*sink, n)
 	errs := make([]error, n)
 	var wg sync.WaitGroup
@@ -836,7 +880,11 @@ func Gen(r *vk.Run, n int) error {
 			sem <- struct{}{}
 			defer func() { <-sem }()
 			sinks[i] = &sink{}
-			if err := runHistory(sinks[i], specs[i], ""); err != nil {
+			bp := ""
+			if specs[i].directed > 0 {
+				bp = "directed"
+			}
+			if err := runHistory(sinks[i], specs[i], bp); err != nil {
 				errs[i] = fmt.Errorf("run seed=%d det=%v: %w", specs[i].seed, specs[i].det, err)
 			}
 		}(i)
@@ -870,8 +918,9 @@ func Replay(r *vk.Run, c map[string]any) error {
 		return fmt.Errorf("replay case carries no hseed")
 	}
 	det, _ := c["det"].(bool)
+	directed, _ := c["directed"].(float64)
 	h := &sink{}
-	if err := runHistory(h, runSpec{seed: int64(seed), det: det, flags: flags}, ""); err != nil {
+	if err := runHistory(h, runSpec{directed: int(directed), seed: int64(seed), det: det, flags: flags}, ""); err != nil {
 		return err
 	}
 	emit(r, []*sink{h}, cheap)
